@@ -78,6 +78,11 @@ class Ex:
     def __le__(self, o): return Ex("le", self, _ex(o))
     def __gt__(self, o): return Ex("lt", _ex(o), self)
     def __ge__(self, o): return Ex("le", _ex(o), self)
+    def __and__(self, o): return Ex("and", self, _ex(o))          # element-wise & of two conditions
+    __rand__ = __and__
+    def __or__(self, o): return Ex("or", self, _ex(o))
+    __ror__ = __or__
+    def __invert__(self): return Ex("not", self)
     __hash__ = object.__hash__
 
     def __bool__(self):
@@ -208,7 +213,7 @@ def D(e, v):
         return D(exp(p * log(b)), v)
     if op == "where":
         return where(e.a[0], D(e.a[1], v), D(e.a[2], v))
-    if op in ("eq", "ne", "lt", "le", "and"):
+    if op in ("eq", "ne", "lt", "le", "and", "or", "not"):
         return const(0)
     if op == "fn":
         name, u = e.a[0], e.a[1]
@@ -260,6 +265,10 @@ class Z:
             return {"eq": l == r, "ne": l != r, "lt": l < r, "le": l <= r}[e.op]
         if e.op == "and":
             return z3.And(self.b(e.a[0]), self.b(e.a[1]))
+        if e.op == "or":
+            return z3.Or(self.b(e.a[0]), self.b(e.a[1]))
+        if e.op == "not":
+            return z3.Not(self.b(e.a[0]))
         if e.op == "fn" and e.a[0] == "isfinite":
             return z3.BoolVal(True)  # reals are finite
         return self.t(e) != 0
@@ -284,7 +293,7 @@ class Z:
             den = self.t(e.a[1])
             self.defined.append(den != 0)
             return self.t(e.a[0]) / den
-        if op in ("eq", "ne", "lt", "le", "and"):
+        if op in ("eq", "ne", "lt", "le", "and", "or", "not"):
             return z3.If(self.b(e), z3.RealVal(1), z3.RealVal(0))
         if op == "where":
             return z3.If(self.b(e.a[0]), self.t(e.a[1]), self.t(e.a[2]))
@@ -447,6 +456,8 @@ def evalf(e, env, mp):
         l, r = evalf(e.a[0], env, mp), evalf(e.a[1], env, mp)
         return mp.mpf(int({"eq": l == r, "ne": l != r, "lt": l < r, "le": l <= r}[op]))
     if op == "and": return mp.mpf(int(evalf(e.a[0], env, mp) != 0 and evalf(e.a[1], env, mp) != 0))
+    if op == "or": return mp.mpf(int(evalf(e.a[0], env, mp) != 0 or evalf(e.a[1], env, mp) != 0))
+    if op == "not": return mp.mpf(int(evalf(e.a[0], env, mp) == 0))
     if op == "fn":
         name = e.a[0]
         if name == "atan2": return mp.atan2(evalf(e.a[1], env, mp), evalf(e.a[2], env, mp))
